@@ -82,6 +82,28 @@ NA = {
 }
 PENDING = 'check not built yet at this revision (planned: see DESIGN.md section 4)'
 
+# round 4 (DESIGN.md section 8): what the cells additionally quantify over
+EXTRA = {
+ 'C01': ' Import machinery reached by name (importlib.import_module, find_spec / pkgutil loaders on dotted names) is recorded as well.',
+ 'C03': ' The same soups are composed through a loader class with path resolvers of every path-element form registered.',
+ 'C04': ' The stand-in modules also hold a live generator object and an iterator object (naming them must return them untouched: known finding K12); import machinery reached by name is recorded.',
+ 'C05': ' Multi-document cells: tagged first roots, %TAG handles rebound from one document to the next.',
+ 'C07': ' mixed/* cells: one free character (all code points) between pieces of other character classes, as text and UTF-8 byte streams with symbolic read sizes.',
+ 'C08': " float-repr/* cells run represent_float on every shape of repr(float) with free digits; the engine's regex model is corrected for '$' before a final line feed (M13, decided by the model-dollar cell); the E2 translator handles re.IGNORECASE.",
+ 'C09': ' The token API is also driven by get_token() alone and by peek_token() + get_token(); the sequences must equal scan().',
+ 'C12': ' Event level: %TAG on the first and / or second document, roots tagged under the declared prefix, tags compared.',
+ 'C13': ' Node kinds include a scalar whose constructor returns an object with identity (datetime.date); sibling shapes include instances used as dict keys and set members.',
+ 'C14': ' Merge cells include equal keys in different spellings (16 / 0x10 / 020) between the merging and the merged mapping.',
+ 'C15': ' tag-char/* cells: one free character (every Unicode scalar value) in local / verbatim / handle-suffix tags and in a %TAG prefix.',
+ 'C16': ' same-in-any-process: dump under one option set, then under another, compared with the second on a pristine library state.',
+ 'C17': ' Shapes include dict / list subclasses whose __setitem__ / extend keep derived data and whose __reduce__ returns dictitems / listitems, and a dict keyed by an instance.',
+ 'C18': ' long-token/* cells: one unbroken token of 5000-17000 characters (70000 in the thorough tier) in five token kinds.',
+ 'C19': ' Global state is compared right after the failed call, and the same objects, modified after the failure, are dumped again.',
+}
+for _pid, _t in EXTRA.items():
+    C[_pid]['text'] += _t
+C['C04']['note'] += ' Known finding K12 (a generator object named by python/name is advanced and drained).'
+
 props = [json.loads(l) for l in open(os.path.join(HERE, 'properties.jsonl'))]
 checks = []
 na = []
